@@ -272,6 +272,9 @@ async fn body(seed: u64, threaded: bool) -> Outcome {
         i += b;
         if threaded {
             tokio::time::sleep(Duration::from_micros(p.range(0, 300))).await;
+        } else if V2 && p.chance(1, 3) {
+            // v2 only (no lag rule to apply): do not let the dispatcher run between this burst and whatever is scheduled at the
+            // next position, so that a subscribe / stop lands in the same dispatcher batch as the sends before it
         } else {
             // let every forwarder catch up (system idle) so that the v1 lag rule can be applied burst by burst
             vt::settle().await;
